@@ -308,6 +308,17 @@ fn near_values(p: &BigUint, nbytes: usize, quick: bool) -> Vec<BigUint> {
         }
     }
     v.extend(cmp_family(p, nbytes));
+    // aliases x = s + kp whose word-wise differences from s cancel under XOR (what a canonicity
+    // comparison that folds word differences with ^ instead of | accepts); refmodel::foldfam
+    for w in [64usize, 32] {
+        if nbytes * 8 / w > 8 {
+            continue;
+        }
+        for k in 1..=2u32 {
+            let fam = refmodel::foldfam::xor_fold_collisions(&(p * k), nbytes, w, 4096, 0xC11);
+            v.extend(fam.into_iter().filter(|(s, _)| s < p).take(64).map(|(_, x)| x));
+        }
+    }
     v.retain(|x| *x < lim);
     dedup(v)
 }
